@@ -38,6 +38,9 @@ def canon_groups(labels):
     first = {}
     out = []
     for i, lab in enumerate(labels):
+        if isinstance(lab, tuple) and len(lab) != 1:
+            out.append("x")              # line in no section / in several sections
+            continue
         first.setdefault(lab, i)
         out.append(first[lab])
     return ",".join(map(str, out))
@@ -56,7 +59,7 @@ def handler(case):
         for k, s in enumerate(n.sections):
             for l in s.lines:
                 sec_of.setdefault(l.name, []).append(k)
-        impl.append(canon_groups([tuple(sec_of.get(l.name, [-1])) for l in order]))
+        impl.append(canon_groups([tuple(sec_of.get(l.name, [])) for l in order]))
         tag = f"{n.name} (lines {[l.name for l in order]}, switches {[len(l.get_switches()) for l in order]})"
         # ---- oracle on the implementation's sections
         for l in n.lines:
